@@ -435,7 +435,9 @@ pub fn run_case(case: &Case) -> Result<(bool, Vec<&'static str>), Failure> {
         Stop::RuntimeDroppedBeforeStart => {
             let mut rt = Builder::seeded(1).quiet().build(sim.freeze());
             let target = rt.app.get(&ObjectPath::from(paths[0].as_str())).unwrap();
-            rt.handle_message_on(target, Message::default().with_content(TokBody(Tok::new("message body (injected, never run)"), 5)), st(1_000));
+            rt.handle_message_on(target.clone(), Message::default().with_content(TokBody(Tok::new("message body (injected, never run)"), 5)), st(1_000));
+            // and one for "never": an event at the largest representable time is owned like any other
+            rt.handle_message_on(target, Message::default().with_content(TokBody(Tok::new("message body (injected at SimTime::MAX, never run)"), 5)), SimTime::MAX);
             drop(rt);
         }
         other => {
@@ -533,7 +535,7 @@ impl Prop for C20 {
          short sleep that own tracked tokens (try_join or must-join), optionally shutting down (and restarting), panicking in the k-th handler \
          call, keeping the last message in its state, emitting messages from at_sim_end; 0..2 nodes built with des' AsyncFn building block (new / failable / io) whose \
          future owns a token, hoards the injected messages and is blocked in recv() at the drop, optionally with a child module; 0..2 tracked processing elements per module; stopping point in {builder dropped, frozen Sim \
-         dropped, Runtime dropped before start, max_itr(k), max_time(t), run to completion (possibly ending with PanicError / NotFinished)}. Oracle: \
+         dropped, Runtime dropped before start (with an event pending at SimTime::MAX), max_itr(k), max_time(t), run to completion (possibly ending with PanicError / NotFinished)}. Oracle: \
          after dropping every value the API returned, every tracked instance was dropped exactly once (none alive, none twice), and a canonical \
          follow-up simulation reproduces the trace of a fresh process. Non-trivial iff events were pending at the stop AND a channel had a \
          backlog AND a task was blocked."
